@@ -575,7 +575,7 @@ def coerceArgs (env : Env) (fuel : Nat) (specMu : Bool := true) (subEnv : Env :=
      | some (.prim .reserved) => (coerceArgs env fuel specMu subEnv [] [] es).map (Val.reserved :: ·)
      | _ => .err .subtype)
 
-def defaultFuel : Nat := 600
+def defaultFuel : Nat := 100000
 
 /-- decode a message at an expected type sequence (`IDLArgs::from_bytes_with_types`) -/
 def decodeArgs (bs : Bytes) (env : Env) (expected : List Ty) (specMu : Bool := true) (specRefs : Bool := true) : Outcome (List Val) :=
